@@ -127,6 +127,8 @@ type c32Case struct {
 	Result  int      `json:"result,omitempty"`
 	Gas     uint64   `json:"gas,omitempty"`
 	Variant int      `json:"variant,omitempty"`
+	HashPat int      `json:"hashpat,omitempty"` // extrinsic hashes: 0 all distinct, 1 all equal, 2 first == last, 3 adjacent equal (0,0,1,1,…)
+	ImpPat  int      `json:"imppat,omitempty"`  // import specs: 0 all distinct, 1 all equal (same tree root and index)
 	Mode    string   `json:"mode,omitempty"`
 	Bundle  int      `json:"bundle,omitempty"`
 	NExp    int      `json:"nexp,omitempty"`
@@ -166,12 +168,28 @@ func c32Item(c c32Case) (types.WorkItem, types.WorkExecResult) {
 	it.ExportCount = types.U16(c.Exports)
 	it.ImportSegments = make([]types.ImportSpec, c.Imports)
 	for i := range it.ImportSegments {
-		it.ImportSegments[i].TreeRoot[0] = byte(i + 1)
-		it.ImportSegments[i].Index = types.U16(i * 4097)
+		k := i
+		if c.ImpPat == 1 {
+			k = 0
+		}
+		it.ImportSegments[i].TreeRoot[0] = byte(k + 1)
+		it.ImportSegments[i].Index = types.U16(k * 4097)
 	}
 	it.Extrinsic = make([]types.ExtrinsicSpec, len(c.Extr))
 	for i, l := range c.Extr {
-		it.Extrinsic[i].Hash[0] = byte(0x80 + i)
+		k := i
+		switch c.HashPat {
+		case 1:
+			k = 0
+		case 2:
+			if i == len(c.Extr)-1 {
+				k = 0
+			}
+		case 3:
+			k = i / 2
+		}
+		it.Extrinsic[i].Hash[0] = byte(0x80 + k)
+		it.Extrinsic[i].Hash[31] = byte(k)
 		it.Extrinsic[i].Len = types.U32(l)
 	}
 	res := types.WorkExecResult{Type: c32ResultTypes[c.Result]}
@@ -208,6 +226,21 @@ func c32Diag(got uint64, ref c32RefDigest, self string) string {
 	return "got=ambiguous"
 }
 
+// c32Dup marks cases whose extrinsic specs / import specs contain repeated entries (part of the violation key:
+// a defect that needs duplicates gets its own signature).
+func c32Dup(c c32Case, field string) string {
+	if field == "imports" {
+		if c.ImpPat != 0 && c.Imports >= 2 {
+			return ";duplicate-import-specs"
+		}
+		return ""
+	}
+	if c.HashPat != 0 && len(c.Extr) >= 2 {
+		return ";duplicate-extrinsic-hashes"
+	}
+	return ""
+}
+
 func c32CheckC(r *vlib.Run, c c32Case) {
 	item, res := c32Item(c)
 	ref := c32RefC(item, res, c.Gas)
@@ -223,12 +256,12 @@ func c32CheckC(r *vlib.Run, c c32Case) {
 	} else if ref.ExtrSize > 0xFFFF {
 		sizeClass = "exceeds-u16"
 	}
-	r.Class(fmt.Sprintf("C result=%s |x|=%d size=%s imports=%d", res.Type, len(c.Extr), sizeClass, c.Imports))
+	r.Class(fmt.Sprintf("C result=%s |x|=%d size=%s imports=%d hashes=%d importspecs=%d", res.Type, len(c.Extr), sizeClass, c.Imports, c.HashPat, c.ImpPat))
 	if p {
 		r.Violation("work_package.C", "go-panic", "", fmt.Sprintf("case %+v: %s", c, msg), c)
 		return
 	}
-	desc := fmt.Sprintf("item: %d imports, extrinsic lengths %v (sum %d), export count %d; result %s; gas %d", c.Imports, c.Extr, ref.ExtrSize, c.Exports, res.Type, c.Gas)
+	desc := fmt.Sprintf("item: %d imports (spec pattern %d), extrinsic lengths %v (sum %d, hash pattern %d: 0 distinct/1 all equal/2 first=last/3 adjacent equal), export count %d; result %s; gas %d", c.Imports, c.ImpPat, c.Extr, ref.ExtrSize, c.HashPat, c.Exports, res.Type, c.Gas)
 	if uint32(got.ServiceID) != ref.Service {
 		r.Violation("work_package.C", "wrong-service", "", fmt.Sprintf("%s: service %d, expected %d", desc, got.ServiceID, ref.Service), c)
 	}
@@ -249,15 +282,15 @@ func c32CheckC(r *vlib.Run, c c32Case) {
 		r.Violation("work_package.C", "wrong-gas-used", c32Diag(uint64(l.GasUsed), ref, "gas-used"), fmt.Sprintf("%s: refine load gas used %d, expected %d", desc, l.GasUsed, ref.GasUsed), c)
 	}
 	if uint64(l.Imports) != ref.Imports {
-		r.Violation("work_package.C", "wrong-imports", c32Diag(uint64(l.Imports), ref, "imports"), fmt.Sprintf("%s: refine load imports %d, expected |w_i| = %d", desc, l.Imports, ref.Imports), c)
+		r.Violation("work_package.C", "wrong-imports", c32Diag(uint64(l.Imports), ref, "imports")+c32Dup(c, "imports"), fmt.Sprintf("%s: refine load imports %d, expected |w_i| = %d", desc, l.Imports, ref.Imports), c)
 	}
 	if uint64(l.ExtrinsicCount) != ref.ExtrCount {
-		r.Violation("work_package.C", "wrong-extrinsic-count", c32Diag(uint64(l.ExtrinsicCount), ref, "extrinsic-count"), fmt.Sprintf("%s: refine load extrinsic count %d, expected |w_x| = %d", desc, l.ExtrinsicCount, ref.ExtrCount), c)
+		r.Violation("work_package.C", "wrong-extrinsic-count", c32Diag(uint64(l.ExtrinsicCount), ref, "extrinsic-count")+c32Dup(c, "extrinsics"), fmt.Sprintf("%s: refine load extrinsic count %d, expected |w_x| = %d", desc, l.ExtrinsicCount, ref.ExtrCount), c)
 	}
 	// the field is a U32: a sum above 2^32-1 cannot be represented (and cannot occur in a package that respects
 	// the bundle size limit), so nothing is demanded there
 	if ref.ExtrSize <= 0xFFFFFFFF && uint64(l.ExtrinsicSize) != ref.ExtrSize {
-		r.Violation("work_package.C", "wrong-extrinsic-size", c32Diag(uint64(l.ExtrinsicSize), ref, "extrinsic-size-sum"), fmt.Sprintf("%s: refine load extrinsic size %d, expected sum of lengths = %d", desc, l.ExtrinsicSize, ref.ExtrSize), c)
+		r.Violation("work_package.C", "wrong-extrinsic-size", c32Diag(uint64(l.ExtrinsicSize), ref, "extrinsic-size-sum")+c32Dup(c, "extrinsics"), fmt.Sprintf("%s: refine load extrinsic size %d, expected sum of lengths = %d", desc, l.ExtrinsicSize, ref.ExtrSize), c)
 	}
 	if uint64(l.Exports) != ref.ExportsCount {
 		r.Violation("work_package.C", "wrong-exports", c32Diag(uint64(l.Exports), ref, "export-count"), fmt.Sprintf("%s: refine load exports %d, expected w_e = %d", desc, l.Exports, ref.ExportsCount), c)
@@ -361,12 +394,23 @@ func TestVerif_C32(t *testing.T) {
 				for res := range c32ResultTypes {
 					for _, g := range c32Gas {
 						for variant := 0; variant < 4; variant++ {
-							idx++
-							if !r.Mine(idx) {
-								continue
+							// repeated extrinsic hashes (the same blob carried twice is legal) and repeated import specs
+							for hp := 0; hp < 4; hp++ {
+								if hp > 0 && (len(ex) < 2 || (hp == 2 && len(ex) == 2)) {
+									continue // pattern needs >= 2 entries; for 2 entries first==last is all-equal
+								}
+								for ip := 0; ip < 2; ip++ {
+									if ip > 0 && imp < 2 {
+										continue
+									}
+									idx++
+									if !r.Mine(idx) {
+										continue
+									}
+									r.Space(1)
+									c32CheckC(r, c32Case{Part: "C", Imports: imp, Extr: ex, Exports: e, Result: res, Gas: g, Variant: variant, HashPat: hp, ImpPat: ip})
+								}
 							}
-							r.Space(1)
-							c32CheckC(r, c32Case{Part: "C", Imports: imp, Extr: ex, Exports: e, Result: res, Gas: g, Variant: variant})
 						}
 					}
 				}
